@@ -54,6 +54,7 @@ pub fn cfg() -> GenCfg {
         p_count_conflict: 6,
         fk_to_null: true,
         hyphen_vars: true,
+        hyphen_keys: true,
         ..GenCfg::default()
     }
 }
